@@ -138,9 +138,7 @@ def run(ctx):
         ctx.correspondence_broken("table-generator", info["problems"][:5])
     ctx.proofs()
     ae.table_obligations(ctx)
-    ok, log = common.ocaml_build()
-    if not os.path.exists(ae.model_binary()):
-        ctx.correspondence_broken("ocaml-build", log[-2000:])
+    if not ae.build_model(ctx):
         return
     Ta = ae.tools("asan")
 
